@@ -381,6 +381,75 @@ def install():
     _installed = True
 
 
+def marginal(spec, c, e, f, kw, res):
+    """The out-of-range decision is taken per batch, and every generated
+    batch holds values far outside.  Here: batches whose ONLY out-of-range
+    value is the nearest representable number beyond the domain (float64, and
+    float32 for float32 query arrays) must be reported; batches that touch
+    the outer edges from inside must not."""
+    lo, hi, dontcare, dom = cells_for(spec, c, e)
+    if spec.get('cdtype') == 'f' and spec['bounds'] == 'none':
+        return []      # derived edges known up to float32 rounding only
+    if spec['method'] == 'bounds':
+        rlo, rhi = dom
+    elif spec['bounds'] != 'none':
+        rlo, rhi = e.min(), e.max()
+    else:
+        rlo, rhi = c.min(), c.max()
+    slo, shi = rlo, rhi
+    if dontcare and spec['method'] == 'bounds':
+        slo = min([slo] + [a for a, _ in dontcare])
+        shi = max([shi] + [b for _, b in dontcare])
+    qt = 'f4' if spec.get('q32') else 'f8'
+    inside = np.array(c, qt)
+    inside = inside[(inside.astype('f8') >= rlo) &
+                    (inside.astype('f8') <= rhi)]
+
+    def beyond(x, d):
+        y = np.array(x, qt)
+        while (y >= x if d < 0 else y <= x):
+            y = np.nextafter(y, np.array(d * np.inf, qt))
+        return y
+
+    def within(x, d):
+        # nearest representable value at or inside the limit
+        y = np.array(x, qt)
+        while (y < x if d < 0 else y > x):
+            y = np.nextafter(y, np.array(-d * np.inf, qt))
+        return y
+    problems = []
+    batches = [('just below the domain', beyond(slo, -1), True),
+               ('just above the domain', beyond(shi, +1), True),
+               ('on the lowest edge', within(rlo, -1), False),
+               ('on the highest edge', within(rhi, +1), False)]
+    for what, v, isout in batches:
+        qb = np.append(inside, v).astype(qt)
+        harness.WARN_LOG.clear()
+        try:
+            f.val2idx('x', qb.copy(), **kw)
+            r = None
+        except ValueError as ex:
+            r = ex
+        except Exception as ex:
+            problems.append('batch with one value %s (%r) raised %r'
+                            % (what, float(v), ex))
+            continue
+        res.hook('val2idx.marginal')
+        warned = any('out of bounds' in m for _, m in harness.WARN_LOG)
+        told = (r is not None) if spec['boundsopt'] == 'error' else warned
+        if isout and not told:
+            problems.append('bounds=%r: a %s batch whose only out-of-range '
+                            'value is %r (%s, domain %r..%r) was accepted '
+                            'silently' % (spec['boundsopt'], qt, float(v),
+                                          what, float(slo), float(shi)))
+        elif not isout and (r is not None or warned):
+            problems.append('bounds=%r: a %s batch of in-range values with '
+                            '%r %s (domain %r..%r) was reported as out of '
+                            'bounds' % (spec['boundsopt'], qt, float(v),
+                                        what, float(rlo), float(rhi)))
+    return problems
+
+
 def run_val(spec, res):
     with harness.casedir() as d, harness.handles() as h:
         run_val_in(spec, res, d, h)
@@ -474,6 +543,9 @@ def run_val_in(spec, res, d, h):
                     '%s, x gave %s' % (
                         q[j] * 2, b.tolist()[j] if b.shape else b,
                         a.tolist()[j] if a.shape else a))
+    if not problems and spec['boundsopt'] in ('warn', 'error') and \
+            spec['method'] != 'exact':
+        problems += marginal(spec, c, e, f, kw, res)
     if not problems and raised is None and out is not None and \
             not spec.get('disk') and spec['seed'] % 4 == 1:
         # the coordinate (and its bounds) is edited in place - rescaled by
